@@ -3,7 +3,7 @@ from symx.api import H
 from spec import enc
 from spec import elf_layout as L
 from spec import registry as REG
-from harness.elfkit import Image
+from harness.elfkit import Image, machines_of_interest
 
 PROPERTY = 'C09'
 ASSUMPTIONS = [
@@ -34,7 +34,10 @@ def _template(ctx, cfg):
     cls, little, variant = cfg['elfclass'], cfg['little'], cfg['variant']
     A = 32 if cls == 32 else 64
     V = ctx.uint('load_vaddr', 32 if cls == 64 else 18) * 0x1000           # page aligned load address (inside the class's address space)
-    img = Image(cls, little, machine=62 if cls == 64 else 3, e_type=3)
+    mach = 62 if cls == 64 else 3
+    if cfg.get('machine'):
+        mach = sorted(REG.values(cfg['machine']))[0]
+    img = Image(cls, little, machine=mach, e_type=3)
     split = cfg.get('layout') == 'split'
     if split:
         # two PT_LOAD segments adjacent in memory but not in the file: the first maps the file up to X, then come 24 bytes that are
@@ -230,6 +233,14 @@ def _instances(tier):
             for hsh in ('sysv', 'gnu') + (('both',) if tier == 'thorough' else ()):
                 for symstr in ((0, 2) if tier == 'quick' else (0, 1, 2, 3)):
                     out.append(dict(elfclass=cls, little=little, variant=variant, hash=hsh, rela=(cls == 64), rpath=(hsh == 'sysv'), symstr=symstr))
+        # every machine the library's code mentions (it may lay out hash tables, dynamic entries or symbols specially there), both
+        # classes and byte orders spread over the list
+        for i, m in enumerate(machines_of_interest()):
+            if REG.values(m):
+                for hsh in ('sysv', 'gnu'):
+                    out.append(dict(elfclass=cls, little=(little if i % 2 else not little), variant='stripped', hash=hsh, rela=(cls == 64), rpath=True, symstr=0, machine=m))
+    for cls, little in envs:
+        for variant in ('sections', 'stripped', 'shifted'):
             # two PT_LOAD segments, the dynamic tables at the very start of the second one
             out.append(dict(elfclass=cls, little=little, variant=variant, hash='gnu' if cls == 64 else 'sysv', rela=(cls == 64), rpath=True, symstr=1, layout='split'))
     return out
